@@ -84,6 +84,8 @@ macro_rules! define_get_push_index {
                     let idx = self.$member.len() as u32;
                     log::trace!(concat!(stringify!($push_name),": assigning index {} to {:?}"), idx, id);
                     self.$member.insert(id, idx);
+                    #[cfg(walrus_verif)]
+                    crate::verif::emit("assigned", stringify!($member), id.index() as i64, idx as i64);
                 }
             )*
         }
@@ -106,5 +108,7 @@ impl IdsToIndices {
     /// Sets the data index to the specified value
     pub(crate) fn set_data_index(&mut self, id: DataId, idx: u32) {
         self.data.insert(id, idx);
+        #[cfg(walrus_verif)]
+        crate::verif::emit("assigned", "data", id.index() as i64, idx as i64);
     }
 }
